@@ -143,7 +143,7 @@ func (v *Verifier) newFrame(fn *ssa.Function, out *[]Outcome) *Frame {
 		li = findLoops(fn)
 		v.loopCache[fn] = li
 	}
-	return &Frame{v: v, fn: fn, regs: map[ssa.Value]Value{}, env: map[string]Value{}, envAddr: map[string]bool{}, calls: map[string]int{}, out: out, loops: li, ctr: v.contractFor(fn), vars: map[string]Value{}}
+	return &Frame{v: v, fn: fn, regs: map[ssa.Value]Value{}, env: map[string]Value{}, envAddr: map[string]bool{}, calls: map[string]int{}, callRes: map[string][]Value{}, out: out, loops: li, ctr: v.contractFor(fn), vars: map[string]Value{}}
 }
 
 func (fr *Frame) bindParams(st *State, args []Value) {
@@ -539,6 +539,7 @@ func (fr *Frame) applyContract(st *State, ctr *Contract, name string, sig *types
 	}
 	res := fr.freshResults(st, sig, short)
 	bindResults(vars, res)
+	fr.callRes[fmt.Sprintf("%s#%d", short, nth)] = res
 	var outs []Outcome
 	if ctr.MayPanic {
 		ps := st.clone()
